@@ -4,7 +4,7 @@
     All Go functions involved are the translated ones (Gen/CellGeom.v) except
     faceIJOrientation (Model/HilbertDecode.v). *)
 From Coq Require Import ZArith List Bool Lia Floats.
-From Geo Require Import Base.GoPrim Gen.CellGeom Proofs.C12_Hilbert Proofs.C12_Ids Proofs.C12_Float.
+From Geo Require Import Base.GoPrim Gen.CellGeom Model.HilbertDecode Proofs.C12_Hilbert Proofs.C12_Bridge Proofs.C12_Ids Proofs.C12_Float.
 Import ListNotations.
 Local Open Scope Z_scope.
 
@@ -87,15 +87,16 @@ Proof.
 Qed.
 
 (** ** decode of a structured id, uniform in the level *)
-Lemma decode_struct (n E : nat) K : (n + E = 30)%nat ->
+Lemma decode_struct (n E : nat) K : (n + E = 30)%nat -> sid_ok K E ->
   forall ci cj co, cell_state n K = (ci, cj, co) ->
   exists r, 0 <= r < 2 ^ Z.of_nat E /\
     s2_CellID_faceIJOrientation (sid K E) =
       (Z.shiftr (sid K E) 61, ci * 2 ^ Z.of_nat E + r, cj * 2 ^ Z.of_nat E + r, co) /\
     (forall e, E = S e -> r = 2 ^ Z.of_nat e - co / 2).
 Proof.
-  intros Hn ci cj co ES. pose proof (hd_state_ok n K) as Hok. unfold cell_state in ES.
+  intros Hn Hsok ci cj co ES. pose proof (hd_state_ok n K) as Hok. unfold cell_state in ES.
   rewrite ES in Hok. destruct Hok as (Hci & Hcj & Hco).
+  rewrite faceIJOrientation_bridge by (pose proof (sid_range K E Hsok); unfold C01_Algebra.u64; lia).
   destruct E as [|e].
   - exists 0. split; [change (2 ^ Z.of_nat 0) with 1; lia|]. split; [|discriminate].
     pose proof (decode_leaf K) as D. cbv zeta in D. unfold cell_state in D.
@@ -118,7 +119,7 @@ Lemma cellfrom_spec (n E : nat) K : (n + E = 30)%nat -> sid_ok K E ->
     mk_s2_Cell (wrap_i8 (Z.shiftr (sid K E) 61)) (Z.of_nat n) co (sid K E) (RectOf ci cj E).
 Proof.
   intros Hn Hok ci cj co ES.
-  destruct (decode_struct n E K Hn ci cj co ES) as (r & Hr & D & _).
+  destruct (decode_struct n E K Hn Hok ci cj co ES) as (r & Hr & D & _).
   pose proof (hd_state_ok n K) as Hst. unfold cell_state in ES. rewrite ES in Hst.
   destruct Hst as (Hci & Hcj & Hco).
   unfold s2_CellFromCellID.
@@ -189,7 +190,7 @@ Lemma centerUV_spec (n e : nat) K : (n + S e = 30)%nat -> sid_ok K (S e) ->
     mk_r2_Point (UV ((2 * ci + 1) * 2 ^ Z.of_nat e)) (UV ((2 * cj + 1) * 2 ^ Z.of_nat e)).
 Proof.
   intros Hn Hok ci cj co ES.
-  destruct (decode_struct n (S e) K Hn ci cj co ES) as (r & Hr & D & Er).
+  destruct (decode_struct n (S e) K Hn Hok ci cj co ES) as (r & Hr & D & Er).
   specialize (Er e eq_refl). subst r.
   pose proof (hd_state_ok n K) as Hst. unfold cell_state in ES. rewrite ES in Hst.
   destruct Hst as (Hci & Hcj & Hco).
